@@ -5,8 +5,12 @@ import CalVerif.Model.Dates
 
     `civil <ms|nf> …`            → `;`-joined `Y-M-D h:mi:s.ms` | `none`   (`asDatetimeOfMs`)
     `dur <ms|nf> …`              → `;`-joined `<ms>` | `none`               (`durationOfMs`)
-    `cell <num|dt|other> <msDt> <msDur>` → `dt=… date=… time=… dur=…`       (trait level)
-    `helper <num|dt|other> <msDt> <msDur> <ms1900>` → the same four fields for `Cell.viaSerde`
+    `edt <1900|1904>,<serial> …` → `;`-joined `<date-time>|<duration>`     (`edtAsDatetime`, `edtAsDuration`)
+    `cell <cell>`                → `dt=… date=… time=… dur=…`               (trait level)
+    `helper <cell>`              → the same four fields for `Cell.viaSerde`
+       serial: `w:<n>` | `f:<day>:<r1900>:<r1904>:<rDur>` | `r:<m1900>:<m1904>:<mDur>` (m = integer | `nf`)
+       cell  : `int <n>` | `float <serial>` | `dt <serial> <1900|1904> <dt|td>` | `other`
+               | `iso <pdt> <pd> <pt>` | `isodur <pt>`   (parser outcomes: `none` | `Y/M/D/h/mi/s/ms` | `Y/M/D` | `h/mi/s/ms`)
     `day <1900|1904> <n>`        → canonical date-time of the whole-day serial `n`
     `sweep <1900|1904> <lo> <hi>` → FNV-64 (hex) over `day` of every serial in [lo,hi), each
                                     terminated by `;` -/
@@ -42,6 +46,69 @@ def hex64 (v : UInt64) : String :=
 def system? (s : String) : Option Bool :=
   if s = "1900" then some false else if s = "1904" then some true else none
 
+def serial? (w : String) : Option Serial :=
+  match w.splitOn ":" with
+  | ["w", n] => n.toInt?.map .whole
+  | ["f", d, a, b, c] =>
+    match d.toInt?, a.toNat?, b.toNat?, c.toNat? with
+    | some d, some a, some b, some c => some (.frac d a b c)
+    | _, _, _, _ => none
+  | ["r", a, b, c] =>
+    match parseMs a, parseMs b, parseMs c with
+    | some a, some b, some c => some (.raw a b c)
+    | _, _, _ => none
+  | _ => none
+
+def date? (l : List String) : Option Date :=
+  match l with
+  | [y, m, d] =>
+    match y.toInt?, m.toNat?, d.toNat? with
+    | some y, some m, some d => some { y := y, m := m, d := d }
+    | _, _, _ => none
+  | _ => none
+
+def time? (l : List String) : Option Time :=
+  match l.mapM String.toNat? with
+  | some [h, mi, s, ms] => some { h := h, mi := mi, s := s, ms := ms }
+  | _ => none
+
+/-- `none` ↦ `some none`; malformed ↦ `none` -/
+def optOf {α : Type} (f : List String → Option α) (w : String) : Option (Option α) :=
+  if w = "none" then some none else (f (w.splitOn "/")).map some
+
+def dateTime? (l : List String) : Option DateTime :=
+  match date? (l.take 3), time? (l.drop 3) with
+  | some d, some t => some { date := d, time := t }
+  | _, _ => none
+
+def cell? (ws : List String) : Option Cell :=
+  match ws with
+  | ["int", n] => n.toInt?.map .int
+  | ["float", s] => (serial? s).map .float
+  | ["dt", s, sys, k] =>
+    match serial? s, system? sys with
+    | some s, some b =>
+      if k = "dt" then some (.dateTime s b .dateTime) else if k = "td" then some (.dateTime s b .timeDelta) else none
+    | _, _ => none
+  | ["iso", a, b, c] =>
+    match optOf dateTime? a, optOf date? b, optOf time? c with
+    | some a, some b, some c => some (.dateTimeIso a b c)
+    | _, _, _ => none
+  | ["isodur", c] => (optOf time? c).map .durationIso
+  | ["other"] => some .other
+  | _ => none
+
+def showCell (c : Cell) : String :=
+  s!"dt={showDT c.asDatetime} date={showOpt showDate c.asDate} time={showOpt showTime c.asTime} dur={showOpt toString c.asDuration}"
+
+def edtOne (w : String) : String :=
+  match w.splitOn "," with
+  | [sys, s] =>
+    match system? sys, serial? s with
+    | some b, some s => showDT (edtAsDatetime s b) ++ "|" ++ showOpt toString (edtAsDuration s)
+    | _, _ => "bad-arg"
+  | _ => "bad-arg"
+
 def handle (line : String) : String :=
   match Wire.words line with
   | "civil" :: args =>
@@ -52,28 +119,13 @@ def handle (line : String) : String :=
     ";".intercalate (args.map fun a => match parseMs a with
       | some m => showOpt toString (durationOfMs m)
       | none => "bad-arg")
-  | ["cell", kind, a, b] =>
-    match parseMs a, parseMs b with
-    | some ma, some mb =>
-      let c? : Option Cell :=
-        if kind = "num" then some (.num ma) else if kind = "dt" then some (.dateTime ma mb)
-        else if kind = "other" then some .other else none
-      match c? with
-      | some c => s!"dt={showDT c.asDatetime} date={showOpt showDate c.asDate} time={showOpt showTime c.asTime} dur={showOpt toString c.asDuration}"
-      | none => "bad-kind"
-    | _, _ => "bad-arg"
-  | ["helper", kind, a, b, c] =>
-    match parseMs a, parseMs b, parseMs c with
-    | some ma, some mb, some mc =>
-      let c? : Option Cell :=
-        if kind = "num" then some (.num ma) else if kind = "dt" then some (.dateTime ma mb)
-        else if kind = "other" then some .other else none
-      match c? with
-      | some c0 =>
-        let c := c0.viaSerde mc
-        s!"dt={showDT c.asDatetime} date={showOpt showDate c.asDate} time={showOpt showTime c.asTime} dur={showOpt toString c.asDuration}"
-      | none => "bad-kind"
-    | _, _, _ => "bad-arg"
+  | "edt" :: args => ";".intercalate (args.map edtOne)
+  | "cell" :: ws => match cell? ws with
+    | some c => showCell c
+    | none => "bad-arg"
+  | "helper" :: ws => match cell? ws with
+    | some c => showCell c.viaSerde
+    | none => "bad-arg"
   | ["day", sys, n] =>
     match system? sys, n.toInt? with
     | some b, some v => showDT (datetimeOfSerial b v)
